@@ -18,7 +18,7 @@ ENGINES = [
 ]
 CHECKS = {
     "C01": {"engine": "G+F", "design_ref": "DESIGN.md section 3 C01",
-            "technique": "static analysis: capture-scope def/use between grammar results names and parse actions, call binding against constructor signatures/annotations, marker-to-spelling chain, shape of named results (value / list / wrapped node) against the constructor's use",
+            "technique": "static analysis: capture-scope def/use between grammar results names and parse actions, call binding against constructor signatures/annotations, marker-to-spelling chain, shape of named results (value / list / wrapped node) against the constructor's use; Class.Members.__init__ and collect_namespaces run by the analyser's interpreter on sample member sequences / parent chains (filed once per kind, source order, outermost-first paths)",
             "text": "Decides that nothing the grammar matches is dropped, invented or routed to another field "
                     "between the grammar and the node objects (every information point of every parse action's "
                     "capture scope is read; every read name is defined; constructor binding by arity, keyword "
@@ -27,28 +27,28 @@ CHECKS = {
                     "Does not decide which alternative the longest-match Or picks for ambiguous inputs.",
             "note": TB},
     "C02": {"engine": "F", "design_ref": "DESIGN.md section 3 C02",
-            "technique": "static analysis: interprocedural provenance ('instantiated-ness') of every type-carrying constructor parameter, recursion/worklist shape, substring-rewrite lint, qualifier-forwarding binding",
+            "technique": "static analysis: interprocedural provenance ('instantiated-ness') of every type-carrying constructor parameter, recursion/worklist shape, substring-rewrite lint, qualifier-forwarding binding; the nested template-argument walk run by the analyser's interpreter on sample argument trees; provenance element-wise through tuple results",
             "text": "Decides that every type-carrying position of every node rebuilt by the instantiator is sent "
                     "through the substitution primitives, that the substitution reaches every nesting depth, "
                     "matches whole identifiers only, forwards qualifiers/names/defaults, and treats `This` by "
                     "equality. Does not decide value-level equality of the resulting spellings for all inputs.",
             "note": TB + "; type-carrying fields taken from the parser classes' own annotations"},
     "C03": {"engine": "E+F+G", "design_ref": "DESIGN.md section 3 C03",
-            "technique": "static analysis: node-kind / member-kind exhaustiveness between grammar, instantiator and emitter dispatch; dominance of filter/ignore/escape steps over the emissions they protect; guards of wrap_namespace read as constraints on the depth relative to the top namespace (abstract evaluation for d=-2..2); _partial_match and _gen_module_var evaluated by the analyser's interpreter on sample namespace paths; folded-template slot provenance",
+            "technique": "static analysis: node-kind / member-kind exhaustiveness between grammar, instantiator and emitter dispatch; dominance of filter/ignore/escape steps over the emissions they protect; guards of wrap_namespace read as constraints on the depth relative to the top namespace (abstract evaluation for d=-2..2); _partial_match and _gen_module_var evaluated by the analyser's interpreter on sample namespace paths; folded-template slot provenance; wrap_operators run on sample operators; keyword table evaluated against the keyword module",
             "text": "Decides that every node and member kind the instantiated tree can contain has an emitter, that "
                     "the top-namespace filter, the ignore test, the once-per-submodule declaration and the keyword "
                     "escape dominate the emissions they protect, and that namespace depth is computed relative to "
                     "the configured top namespace. Does not decide exactly-once per declaration for every input.",
             "note": TB + "; keyword.kwlist of CPython 3.12 is the reference list"},
     "C04": {"engine": "E", "design_ref": "DESIGN.md section 3 C04",
-            "technique": "static analysis: constant-folded emission templates with slot provenance; abstract evaluation of the method/static partition; sibling projections of one argument list",
+            "technique": "static analysis: constant-folded emission templates with slot provenance; abstract evaluation of the method/static partition; sibling projections of one argument list; scope qualifier of free functions evaluated on sample paths and top-module settings; read-only choice evaluated over all marker combinations; name-taint of the free-function emitter",
             "text": "Decides the shape of every generated lambda/registration for all inputs (one argument list in "
                     "declared order for parameters, call and py::arg; default on its own parameter; def/def_static, "
                     "receiver and self parameter agree per member kind; return iff non-void; readonly iff const; "
                     "same-entity slots; operator shapes). Behaviour of the compiled binding is not decided.",
             "note": TB + "; pybind11 trusted"},
     "C05": {"engine": "I", "design_ref": "DESIGN.md section 3 C05",
-            "technique": "static analysis: inventory of id-allocation sites with affine offsets and template slot positions, single-writer/allocator shape, text-reaches-output on every path, bounded abstract execution of the two replay loops over symbolic map entries",
+            "technique": "static analysis: inventory of id-allocation sites with affine offsets and template slot positions, single-writer/allocator shape, text-reaches-output on every path, bounded abstract execution of the two replay loops over symbolic map entries; role tuple of each allocation inside an overload loop tied to the loop's own element; hand-written gateway spellings compared with _wrapper_name()",
             "text": "Decides the whole numbering protocol by an inductive argument whose premises are checked: single "
                     "writer, allocator shape, every allocated id embedded once as first gateway argument, affine "
                     "offsets (incl. the virtual pair), the two replay loops produce one case per id routed to the "
@@ -65,7 +65,7 @@ CHECKS = {
                     "recorded. 'k+1 arities for all k' as arithmetic and MATLAB isa semantics are not decided.",
             "note": TB},
     "C07": {"engine": "G+F", "design_ref": "DESIGN.md section 3 C07",
-            "technique": "static analysis: end-anchor and capture-completeness of the grammar, call-graph effect analysis (may-reject before first write on all paths), handler audit, validated-lookup returns, boundedness of free-text token classes, name-dispatch chains over open name sets reject what they do not list",
+            "technique": "static analysis: end-anchor and capture-completeness of the grammar, call-graph effect analysis (may-reject before first write on all paths), handler audit, validated-lookup returns, boundedness of free-text token classes, name-dispatch chains over open name sets reject what they do not list; repetition-shaped results traced into constructors (all values kept); progress analysis of every while loop (paths through the body that change nothing the condition reads)",
             "text": "Decides: the parse root is end-anchored and is the only parse entry; every accepted token "
                     "reaches the tree; the parser terminates structurally (no left recursion / nullable "
                     "repetition); no handler on a path from the entry points swallows a parse/validation error; "
@@ -75,35 +75,35 @@ CHECKS = {
                     "language.",
             "note": TB + "; rejections are ParseBaseException/ValueError/AssertionError; asserts active (no -O)"},
     "C08": {"engine": "F", "design_ref": "DESIGN.md section 3 C08",
-            "technique": "static analysis: shape of every itertools.product site, typedef-path binding resolved before any content replacement, pass-through loop structure, single naming helper, no shared resolution state, parent links stay truthy, Typename.instantiated_name evaluated by the analyser's interpreter on sample type trees",
+            "technique": "static analysis: shape of every itertools.product site, typedef-path binding resolved before any content replacement, pass-through loop structure, single naming helper, no shared resolution state, parent links stay truthy, Typename.instantiated_name evaluated by the analyser's interpreter on sample type trees; find_sub_namespace and instantiate_namespace run by the analyser's interpreter on sample trees (lazy generators with late binding, recorded constructors)",
             "text": "Decides that instantiations are enumerated as the Cartesian product of the parsed lists in "
                     "declaration order at all three levels, that typedefs build exactly one instantiation with "
                     "the typedef's arguments and name, that everything else passes through once in order, and "
                     "that names/spellings come from one helper that capitalises position 0 only.",
             "note": TB + "; itertools.product ordering as documented"},
     "C09": {"engine": "E", "design_ref": "DESIGN.md section 3 C09",
-            "technique": "static analysis: slot completeness and delimiter balance of every folded template (by induction over slot values), string-kind adjacency, re-use of C04/B1 and C02/S1-S2",
+            "technique": "static analysis: slot completeness and delimiter balance of every folded template (by induction over slot values), string-kind adjacency, re-use of C04/B1 and C02/S1-S2; emitters for free functions / methods / static methods run on sample declarations, emitted lambda checked (names passed are the lambda's own parameters)",
             "text": "Decides well-formedness conditions of the emitted C++ that are visible in the templates: no "
                     "missing/unused placeholder, balanced delimiters in every literal skeleton, no namespace prefix "
                     "in front of expression text, lambda/keyword arity, no unsubstituted parameter. 'Compiles against "
                     "any conforming library' needs a compiler and the library and is not decided.",
             "note": TB},
     "C10": {"engine": "E+F", "design_ref": "DESIGN.md section 3 C10",
-            "technique": "static analysis: guard pairing of preamble fragments, enumerate-from-zero shape, package paths of all sibling sites evaluated by the analyser on sample namespace lists (depth 1 and 3), unconditional concatenation of classdef parts, single MEX-source entry, overload grouping by name, must-definition analysis of per-class scalar state",
+            "technique": "static analysis: guard pairing of preamble fragments, enumerate-from-zero shape, package paths of all sibling sites evaluated by the analyser on sample namespace lists (depth 1 and 3), unconditional concatenation of classdef parts, single MEX-source entry, overload grouping by name, must-definition analysis of per-class scalar state; guards of the free-function file append in wrap_methods (name-independent, dead filters recognised)",
             "text": "Decides that collector/clean-up/RTTI fragments are emitted under the right (paired) conditions for "
                     "every registered class, enumerators are numbered from 0 in declared order, all entity kinds "
                     "derive their +package path by one normal form, the classdef always contains its mandatory parts "
                     "and names its base, and exactly one MEX source entry exists. File contents are C05/C06/C11.",
             "note": TB},
     "C11": {"engine": "E+X", "design_ref": "DESIGN.md section 3 C11",
-            "technique": "static analysis: per-routine ownership obligations on constant-folded, tokenised C++ routine templates (create=>register, destroy-once, unload hook, base handle, ownership form of returned handles) + memo-key completeness + clang AST handle protocol of matlab.h + id-role inventory (every id carries its role; holes only as the virtual up-cast slot) + pair element by position",
+            "technique": "static analysis: per-routine ownership obligations on constant-folded, tokenised C++ routine templates (create=>register, destroy-once, unload hook, base handle, ownership form of returned handles) + memo-key completeness + clang AST handle protocol of matlab.h + id-role inventory (every id carries its role; holes only as the virtual up-cast slot) + pair element by position; clang AST conversion chains of wrap<T> (helpers expanded in place) checked for lossy steps",
             "text": "Decides per-routine ownership obligations (each allocated handle registered and returned, destructor "
                     "erases then deletes once, unload hook before first registration, base handle handed over in the "
                     "right slot, handle protocol in matlab.h read as written). Call histories under MATLAB's lifetime "
                     "rules and exceptions between allocation and registration are not decided.",
             "note": TB + "; clang 14 + /verif/stubs as in C18"},
     "C12": {"engine": "G", "design_ref": "DESIGN.md section 3 C12",
-            "technique": "static analysis: grammar reconstruction + layout classification of terminals/combinators",
+            "technique": "static analysis: grammar reconstruction + layout classification of terminals/combinators; character-run terminals checked against comment openers",
             "text": "Decides the necessary structural conditions for layout/comment independence of parsing: "
                     "comment skipper installed on the parse root and covering the whole grammar, no "
                     "layout-sensitive terminal or combinator outside the documented verbatim zones, single "
@@ -111,14 +111,14 @@ CHECKS = {
                     "byte-identical generator output (follows from equal trees + C14).",
             "note": TB},
     "C13": {"engine": "F", "design_ref": "DESIGN.md section 3 C13",
-            "technique": "static analysis: ownership along access paths (shallow vs deep copies, re-bound attributes, local helpers, accessors and constructors followed; reaching definitions, accumulator parameters, closures), key-only use of template parameter names, no shared module/class state",
+            "technique": "static analysis: ownership along access paths (shallow vs deep copies, re-bound attributes, local helpers, accessors and constructors followed; reaching definitions, accumulator parameters, closures), key-only use of template parameter names, no shared module/class state; wrapper attributes filled per class may guard book-keeping only (closure of wrap_instantiated_class); ownership through accessors",
             "text": "Decides the aliasing discipline that makes instantiations independent: every in-place "
                     "modification in the instantiator hits a freshly created value; lists handed to the re-parenting "
                     "Class constructor are rebuilt; parameter names are lookup keys only; no cross-run state in "
                     "parser or instantiator. Does not re-prove output equality under alpha-renaming as a value fact.",
             "note": TB + "; deepcopy yields an independent graph; instantiate_namespace's in/out parameter exempt by name"},
     "C14": {"engine": "F", "design_ref": "DESIGN.md section 3 C14",
-            "technique": "static analysis: effect analysis over the call graph (nondeterminism sources, unordered collections, un-reset accumulators, provenance of write/read paths, whole-file writes, must-definition of per-item state, memo-key completeness)",
+            "technique": "static analysis: effect analysis over the call graph (nondeterminism sources, unordered collections, un-reset accumulators, provenance of write/read paths, whole-file writes, must-definition of per-item state, memo-key completeness); mutable default parameter values traced for in-place modification / escape",
             "text": "Decides the effect discipline that makes generation a repeatable function: no "
                     "nondeterministic source or hash-ordered collection reachable, per-file state reset, every "
                     "written path derived from a caller-chosen output location (or <stem>+constant suffix), "
@@ -126,7 +126,7 @@ CHECKS = {
                     "OS-level atomicity under concurrent writers of the same target.",
             "note": TB + "; insertion-ordered dict/list iteration; MatlabWrapper single-use (exempt from R3)"},
     "C15": {"engine": "F+E", "design_ref": "DESIGN.md section 3 C15",
-            "technique": "static analysis: normal-form comparison of ignore keys across sibling sites, dominance of the ignore test over every per-class emission, None-result handling at every caller, package path of every entity kind evaluated on sample namespace lists",
+            "technique": "static analysis: normal-form comparison of ignore keys across sibling sites, dominance of the ignore test over every per-class emission, None-result handling at every caller, package path of every entity kind evaluated on sample namespace lists; option plumbing of --ignore in both scripts",
             "text": "Decides that each generator computes one ignore key, that the ignore test dominates all artefacts of "
                     "the class (binding, enums; classdef, ids, collector, clean-up, RTTI) and that the 'ignored' result "
                     "is tested before use. Equivalence with deleting the declaration for all inputs is not re-proved.",
@@ -139,14 +139,14 @@ CHECKS = {
                     "top namespace identically. Linking/importing the combined module is not decided.",
             "note": TB + "; argparse semantics as documented"},
     "C17": {"engine": "E+F", "design_ref": "DESIGN.md section 3 C17",
-            "technique": "static analysis: confinement of the XML configuration to one template slot, Engler-style contradiction rule for Optional results with path facts, handler coverage, index bound as guard implication, path enumeration of the name filter, def-use reachability of looked-up elements, counter-key provenance, regex-AST analysis of the literal encoder",
+            "technique": "static analysis: confinement of the XML configuration to one template slot, Engler-style contradiction rule for Optional results with path facts, handler coverage, index bound as guard implication, path enumeration of the name filter, def-use reachability of looked-up elements, counter-key provenance, regex-AST analysis of the literal encoder; XPath of the index query parsed (steps and predicates)",
             "text": "Decides that XML configuration influences only the docstring slot (empty without XML), that "
                     "Optional XML results are never dereferenced without a dominating test, that unreadable/malformed "
                     "XML becomes an empty docstring, that the overload index is bounded and that class/method/argument "
                     "names select the documented member. Exact decoding of the literal for all Unicode is not decided.",
             "note": TB + "; ElementTree find()/text may be None"},
     "C18": {"engine": "X", "design_ref": "DESIGN.md section 3 C18",
-            "technique": "static analysis: clang -fsyntax-only AST (JSON) of matlab.h against declaration-only stubs; writer/reader table agreement, guard-before-use ordering, typed/bounded raw stores, loop-nest shape and loop-header comparison, truth-table comparison of every error guard, argument checks of array-creating and MATLAB-calling functions",
+            "technique": "static analysis: clang -fsyntax-only AST (JSON) of matlab.h against declaration-only stubs; writer/reader table agreement, guard-before-use ordering, typed/bounded raw stores, loop-nest shape and loop-header comparison, truth-table comparison of every error guard, argument checks of array-creating and MATLAB-calling functions; conversion chains from the wrapped value to the raw store (implicit and explicit casts, locals, helper parameters) checked for lossy steps",
             "text": "Decides the structural conditions of loss-free conversion in matlab.h: wrap/unwrap tables "
                     "agree; scalar readers check shape first and read through their own type; raw stores are "
                     "typed and fit the created array (LP64, and ILP32 in the thorough tier); vector/matrix "
